@@ -742,7 +742,13 @@ func (c *vfExCase) run(rnd interface{ Intn(int) int }, record bool) (mm [][4]any
 
 	cliEnd, srvEnd := synctestNetPipe()
 	// a bounded pipe buffer makes network writes block (schedule variation; no effect on the outcome)
-	switch rnd.Intn(3) {
+	// (only on warmed-up connections: the cold ones include the known SETTINGS-race failures, after
+	// which a writer blocked on a full pipe while holding the write mutex never lets the bubble settle)
+	bound := rnd.Intn(3)
+	if !it.In.Warm {
+		bound = 0
+	}
+	switch bound {
 	case 1:
 		cliEnd.SetReadBufferSize(4096)
 		srvEnd.SetReadBufferSize(4096)
@@ -859,7 +865,7 @@ func (c *vfExCase) run(rnd interface{ Intn(int) int }, record bool) (mm [][4]any
 	for _, e := range c.herr {
 		report(0, "handler", "no stray invocation", e)
 	}
-	symptom := ""
+	symptom, symptomSeen := "", false
 	all := slog.String()
 	for j := 0; j < n; j++ {
 		all += c.hobs[j].err + c.cobs[j].err
@@ -874,11 +880,15 @@ func (c *vfExCase) run(rnd interface{ Intn(int) int }, record bool) (mm [][4]any
 		eh, ec := &it.Streams[j].Exp.Handler, &it.Streams[j].Exp.Client
 		rep := func(what string, e, a any) { report(j, what, e, a) }
 		if symptom != "" && (!ho.done || !co.done || co.err != "" || ho.err != "") {
+			steps++
+			if symptomSeen {
+				continue // one report per case: the streams of a connection fail together
+			}
+			symptomSeen = true
 			// symptom class of its own (used by the family's signature): the peers reset the exchange,
 			// or the connection it shares with the exchange that was reset
 			rep("exchange aborted with "+symptom, "complete",
 				fmt.Sprintf("handler done=%v err=%q; client err=%q", ho.done, ho.err, co.err)+vfExLog(slog.String()))
-			steps++
 			continue
 		}
 		if stalled && (!ho.done || !co.done || co.err != "" || ho.err != "") {
@@ -1005,7 +1015,21 @@ func TestVerifH2Exchange(t *testing.T) {
 		var steps int
 		var taps [2]*vfExTap
 		t0 := time.Now()
-		left := vfExBubble(t, func() { mm, steps, taps = c.run(rnd, record) })
+		left := ""
+		// real-time watchdog (this goroutine is outside the bubble): a case that neither completes
+		// nor reaches quiescence (e.g. goroutines parked on a mutex whose holder is blocked) is a hang
+		if p := vfCatchTimeout(time.Duration(env.Int("case_timeout_s", 60))*time.Second, func() {
+			var m2 [][4]any
+			var s2 int
+			var t2 [2]*vfExTap
+			l2 := vfExBubble(t, func() { m2, s2, t2 = c.run(rnd, record) })
+			mm, steps, taps, left = m2, s2, t2, l2
+		}); p != "" {
+			env.Mismatch(raw.B, 0, "hang: the exchange neither completed nor reached quiescence ("+p+")", "complete", p)
+			env.Hung = true
+			env.Replayed(1)
+			break
+		}
 		if d := time.Since(t0); d > 150*time.Millisecond && env.Bool("timing", false) {
 			t.Logf("item %d took %v: id=%v srv=%+v cli=%+v req=%+v resp=%+v par=%d order=%d", raw.B, d, it.Id, it.In.Srv, it.In.Cli, it.In.Req, it.In.Resp, it.In.Par, it.In.Order)
 		}
